@@ -260,14 +260,18 @@ proof fn lemma_step_child<V>(n: NfaBuilder<u8, V>, st: Seq<State>, map: Seq<u32>
 }
 
 // one child placed: slot y = base ^ c gets CHECK = c, the child's slot is recorded
+// what placing the child along label c does to the array and the id map
+spec fn bwb_step_rel<V>(n: NfaBuilder<u8, V>, st: Seq<State>, st2: Seq<State>, map: Seq<u32>, map2: Seq<u32>, inv: Map<int, int>, sid: int, base: u32, c: u8) -> bool {
+    let y = (base ^ (c as u32)) as int; let child = nfa_edges(n, sid)[c] as int;
+    &&& 2 <= y < st.len() && !inv.contains_key(y)
+    &&& st2.len() == st.len() && st2[y].base == st[y].base && st_check(st2[y]) == c
+    &&& forall|z: int| 0 <= z < st.len() && z != y ==> (#[trigger] st2[z]).base == st[z].base && st_check(st2[z]) == st_check(st[z])
+    &&& map2 == map.update(child, y as u32)
+}
 proof fn lemma_bwb_step<V>(n: NfaBuilder<u8, V>, st: Seq<State>, st2: Seq<State>, map: Seq<u32>, map2: Seq<u32>, inv: Map<int, int>, bowner: Map<int, int>,
                            done: Set<int>, sid: int, base: u32, placed: Set<u8>, c: u8)
     requires bwb(n, st, map, inv, bowner, done, sid, base, placed), nfa_tree(n), 0 <= sid, nfa_edges(n, sid).contains_key(c), !placed.contains(c),
-        ({ let y = (base ^ (c as u32)) as int; let child = nfa_edges(n, sid)[c] as int;
-           &&& 2 <= y < st.len() && !inv.contains_key(y)
-           &&& st2.len() == st.len() && st2[y].base == st[y].base && st_check(st2[y]) == c
-           &&& forall|z: int| 0 <= z < st.len() && z != y ==> (#[trigger] st2[z]).base == st[z].base && st_check(st2[z]) == st_check(st[z])
-           &&& map2 == map.update(child, y as u32) }),
+        bwb_step_rel(n, st, st2, map, map2, inv, sid, base, c),
     ensures bwb(n, st2, map2, inv.insert((base ^ (c as u32)) as int, nfa_edges(n, sid)[c] as int), bowner, done, sid, base, placed.insert(c)),
 {
     let len = n.states@.len();
